@@ -26,19 +26,31 @@ COQ_CHECK = 'Watermark.check_case'
 COQ_EXPLAIN = 'Watermark.explain_case'
 SHARD = 400
 WORKERS = 8
-RULE = ('configurations min 0..3, max 0..4, max_queue_len 0..3 or 2^31-1 (min > max included); operation sequences of '
-        'length 3..45 over {request, complete an Open(), release a lent call, expire a queued call, run a spawned '
-        '_ProcessQueue (any pending one), change a connection state (1..4), pool Close, pool Open; Open() results completing '
-        'later (ok or failed) or before Open() returns} from seeded '
-        'generators in four families (healthy, faults, closing, bursts above max+maxq with every-subset expiry), an '
+RULE = ('configurations min in {-1,0..3,2^31-1,default}, max in {0..4,2^31-1,default}, max_queue_len in {-1,0..3,2^31-1,default} '
+        '(default = option not passed to the builder; min > max included); operation sequences of length 3..45 (and 150/250) '
+        'over {request, complete an Open(), release a lent call, expire a queued call, run a spawned _ProcessQueue (any pending '
+        'one), change a connection state (1..4), pool Close, pool Open}; Open() results completing later (ok or failed) or '
+        'before Open() returns; connections that answer inside AsyncProcessRequest (reply or transport error, also on a dead '
+        'connection); callers that react from inside the callback that answers them (new request, Close, Open, raising an '
+        'Exception or gevent.Timeout) or from a fresh greenlet in the same instant (new request, Close, Open - also when '
+        'answered with ServiceClosedError); every case drives TWO pool instances of one process with the same operations; '
+        'seeded generators in four families (healthy, faults, closing, bursts above max+maxq with every-subset expiry), an '
         'exhaustive enumeration of all sequences of a 9-letter alphabet for (1,1,2) (depth 3 quick / 5 thorough), '
         'plus not-enabled labels; every case is followed by a recorded drain epilogue (run hand-offs, complete opens, '
         'release all lent calls until quiescent); non-trivial = at least one request was queued, failed or handed '
         'off; distinct by canonical JSON of (case, observation)')
 TRUSTED = ['mock provider/connection/terminator and the captured gevent.spawn in harness/props/c07.py',
            'reference pool specification (monitor) in harness/props/c07.py']
-ASSUMPTIONS = ['provider.CreateSink and connection.Open() do not raise synchronously (Open() returns an AsyncResult); '
-               'a connection reports state Closed after the pool called Close() on it',
+ASSUMPTIONS = ['a connection reports state Closed after the pool called Close() on it',
+               'out of scope (lead decision; not reachable through the shipped stack, whose response sink completes an AsyncResult '
+               'that notifies from the hub and whose transports do not raise from Close()/Open()/CreateSink); each replays with a '
+               'switch in c07.PENDING: P2 a caller re-dispatching from inside a ServiceClosedError callback during Close() on a '
+               'saturated pool -> RuntimeError deque mutated during iteration, later waiters not failed; P3 a response callback '
+               'raising inside Close() aborts the fail-all loop; P4 a connection whose Close() raises in _Release/_FlushCache loses '
+               'the releasing caller\'s reply / aborts Close(); P5 a synchronous failure of CreateSink/Open() in _Get leaks the slot '
+               'already counted in _current_size',
+               'callers reacting inside Close()\'s loop (nested Close/Open) are not a label sequence: those cases are judged by the '
+               'monitor only (counted as cases_not_sent_to_model)',
                'gevent runs spawned greenlets in spawn order; the model allows any pending _ProcessQueue to run (superset)',
                'a time-out of a call that already holds a connection is the same stack unwinding as a reply (label Resp); '
                'a time-out while blocked in Open().wait() does not involve the pool',
@@ -64,7 +76,8 @@ MANIFEST = {
 
 BIG = 2147483647
 _S = {}
-_CUR = [None]
+_CUR = [None]          # the pool world whose operation is being executed (greenlet errors are charged to it)
+_BY_POOL = {}           # id(pool) -> world, so that a captured spawn lands in the world of the pool that spawned
 
 
 # ---------------------------------------------------------------------------------------------
@@ -85,7 +98,7 @@ class _GeventProxy(object):
     self._real = real
 
   def spawn(self, fn, *a, **kw):
-    h = _CUR[0]
+    h = _BY_POOL.get(id(getattr(fn, '__self__', None))) or _CUR[0]
     if h is None:
       return self._real.spawn(fn, *a, **kw)
     sid = getattr(a[0], 'sid', -1) if a else -1
@@ -110,7 +123,7 @@ def setup():
   from scales.sink import ClientMessageSink, ClientMessageSinkStack, SinkProviderBase
   from scales.asynchronous import AsyncResult
   from scales.constants import ChannelState, SinkProperties
-  from scales.message import MethodCallMessage, MethodReturnMessage, TimeoutError
+  from scales.message import MethodCallMessage, MethodReturnMessage, TimeoutError, ChannelConcurrencyError
   from scales.varz import VarzReceiver, Source
   import collections
   wm.gevent = _GeventProxy(gevent)
@@ -138,12 +151,13 @@ def setup():
     def Open(self):
       self.open_ar = AsyncResult()
       h = self.h
+      if self.sid in h.open_raises:
+        raise IOError('open failed synchronously')
       if h.imm:
         # Open() completes before it returns (eg an already open shared connection): wait() does not yield.
         # In the model this is `Req; OpenDone s` back to back; what was seen so far belongs to the first label.
         h.imm = False
-        gs, gq = h.gauges()
-        h.split = (self.sid, {'ev': list(h.events), 'ps': h.pool.state, 'gs': gs, 'gq': gq}, len(h.events))
+        h.cut(['OpenDone', self.sid])
         self.open_ar.set(None)
       else:
         h.open_pending.append(self.sid)
@@ -152,9 +166,23 @@ def setup():
     def Close(self):
       self.h.events.append(['close', self.sid])
       self._st = ChannelState.Closed
+      if self.sid in self.h.close_raises:
+        raise IOError('close failed')
 
     def AsyncProcessRequest(self, sink_stack, msg, stream, headers):
-      self.h.events.append(['fwd', msg.cid, self.sid])
+      h = self.h
+      h.events.append(['fwd', msg.cid, self.sid])
+      how = h.inline_next
+      if how:
+        # the connection answers before AsyncProcessRequest returns (a serial transport still busy with a timed-out
+        # call answers ChannelConcurrencyError inline, a dead one fails fast): in the model `...; Resp c` back to back
+        h.inline_next = None
+        h.status[msg.cid] = 'done'
+        h.cut(['Resp', msg.cid])
+        if how == 'ok':
+          sink_stack.AsyncProcessResponseMessage(MethodReturnMessage(return_value=1))
+        else:
+          sink_stack.AsyncProcessResponseMessage(MethodReturnMessage(error=ChannelConcurrencyError('inline')))
 
     def AsyncProcessResponse(self, sink_stack, context, stream, msg):
       raise NotImplementedError()
@@ -187,11 +215,18 @@ def setup():
       raise NotImplementedError()
 
     def AsyncProcessResponse(self, sink_stack, context, stream, msg):
+      h = self.h
       err = getattr(msg, 'error', None)
-      if err is None:
-        self.h.events.append(['done', context])
+      name = type(err).__name__ if err is not None else None
+      kind = _ERR.get(name, name)
+      if name is None or name == 'ChannelConcurrencyError':
+        kind = None
+        h.events.append(['done', context])      # a reply or the transport's own error: it travelled past the pool
       else:
-        self.h.events.append(['err', context, _ERR.get(type(err).__name__, type(err).__name__)])
+        h.events.append(['err', context, kind])
+      act = h.react.pop(context, None)
+      if act:
+        h.reaction(act, kind)
 
   class CallMsg(MethodCallMessage):
     __slots__ = ('cid',)
@@ -210,7 +245,7 @@ _G_QUEUE = 'scales.pool.WatermarkPool.queue_size'
 class _H(object):
   """One pool instance and its world."""
 
-  def __init__(self, cfg):
+  def __init__(self, cfg, name):
     S = _S
     self.events = []
     self.sinks = []
@@ -219,25 +254,73 @@ class _H(object):
     self.open_pending = []     # sids whose Open() result is not completed yet
     self.finished = False
     self.imm = False
-    self.split = None
+    self.inline_next = None
+    self.react = {}            # cid -> what its caller does from inside the callback that answers it
+    self.expected = None       # exception raised by a caller callback on purpose
+    self.close_raises = set()  # sids whose Close() raises (PENDING['raising_collaborator'])
+    self.suppressed = 0
+    self.open_raises = set()
+    self.nomodel = None
+    self.cur_label = None
+    self.segs = []             # (label, seen) segments of the operation being executed
+    self.seg_start = 0
     self.ncall = 0
     self.stacks = {}
-    self.status = {}           # cid -> opening | queued | lent | done
+    self.status = {}           # cid -> pending | opening | queued | lent | done
     self.greenlets = []
-    self.source = S['Source'](service='c07', endpoint='h:1')
+    self.source = S['Source'](service='c07' + name, endpoint='h:1')
     for m in (_G_SIZE, _G_QUEUE):
       S['VR'].VARZ_DATA[m].pop(self.source, None)
     self.prov = S['Provider'](self)
     self.term = S['Terminator'](self)
-    sp = S['Pool'].Builder(min_watermark=cfg[0], max_watermark=cfg[1], max_queue_len=cfg[2]).sink_properties
-    self.pool = S['Pool'](self.prov, sp, {S['SP'].Label: 'c07', S['SP'].Endpoint: S['EP']('h', 1)})
+    kw = {}
+    for k, v in zip(('min_watermark', 'max_watermark', 'max_queue_len'), cfg):
+      if v is not None:        # None: the option is not passed at all (builder default)
+        kw[k] = v
+    sp = S['Pool'].Builder(**kw).sink_properties
+    self.pool = S['Pool'](self.prov, sp, {S['SP'].Label: 'c07' + name, S['SP'].Endpoint: S['EP']('h', 1)})
+    _BY_POOL[id(self.pool)] = self
+    # pool.Open() only defers _OpenImpl to a fresh greenlet: the label OpenPool starts when that greenlet starts,
+    # and its outcome is known when it returns (the AsyncResult is checked against it at the end of the case)
+    self.open_direct = False
+    self.open_results = []
+    self.ar_results = []
+    self.wrapped = hasattr(self.pool, '_OpenImpl')
+    if self.wrapped:
+      orig = self.pool._OpenImpl
+
+      def open_impl():
+        if self.open_direct:
+          self.open_direct = False
+        else:
+          self.cut(['OpenPool'])
+        ok = False
+        try:
+          r = orig()
+          ok = True
+          return r
+        finally:
+          if not self.finished:
+            self.events.append(['openres', ok])
+            self.open_results.append(ok)
+      self.pool._OpenImpl = open_impl
+
+  def pool_open(self):
+    ar = self.pool.Open()
+    if self.wrapped:
+      ar.rawlink(lambda a: self.ar_results.append(bool(a.successful())))
+    else:
+      self.cut(['OpenPool'])
+      ar.rawlink(lambda a: self.events.append(['openres', bool(a.successful())]))
 
   # -- plumbing
   def guard(self, fn, *a, **kw):
     try:
       fn(*a, **kw)
     except BaseException as e:
-      if not self.finished:
+      if e is self.expected and not self.nomodel:
+        self.expected = None       # the caller's own exception came back to the caller's side: not the pool's doing
+      elif not self.finished:
         self.events.append(['crash', type(e).__name__])
 
   def settle(self):
@@ -245,42 +328,108 @@ class _H(object):
     for _ in range(4):
       sl(0)
 
+  def run(self, fn, *a, **kw):
+    """Runs fn on its own greenlet (it may block in Open().wait()) and lets the hub run until nothing is runnable."""
+    g = _S['gevent'].spawn(self.guard, fn, *a, **kw)
+    self.greenlets.append(g)
+    self.settle()
+    return g
+
   def gauges(self):
     d = _S['VR'].VARZ_DATA
     return d[_G_SIZE].get(self.source, 0), d[_G_QUEUE].get(self.source, 0)
 
+  def seen(self):
+    gs, gq = self.gauges()
+    try:
+      ps = self.pool.state
+    except Exception:
+      ps = -1
+    return {'ev': self.events[self.seg_start:], 'ps': ps, 'gs': gs, 'gq': gq}
+
+  def cut(self, next_label):
+    """What was seen so far belongs to the current label; from now on the pool executes next_label
+    (a second label started from inside the first one, at a point where the first has nothing left to do)."""
+    if self.cur_label is not None:
+      self.segs.append((self.cur_label, self.seen()))
+    self.seg_start = len(self.events)
+    self.cur_label = next_label
+
   def absorb(self):
     """Updates the call bookkeeping from the events of the operation just executed."""
     for e in self.events:
-      if e[0] == 'fwd':
+      if e[0] == 'fwd' and self.status.get(e[1]) != 'done':
         self.status[e[1]] = 'lent'
       elif e[0] in ('err', 'done'):
         self.status[e[1]] = 'done'
+    for c, v in self.status.items():
+      if v == 'pending':       # AsyncProcessRequest has not returned: blocked in Open().wait()
+        self.status[c] = 'opening'
 
-  # -- operations; each returns the concrete label
+  def request(self, then=None):
+    S = _S
+    cid = self.ncall
+    self.ncall += 1
+    st = S['Stack']()
+    st.Push(self.term, cid)
+    msg = S['CallMsg'](None, 'm', (), {})
+    msg.cid = cid
+    self.stacks[cid] = st
+    if then:
+      self.react[cid] = then
+    self.status[cid] = 'pending'
+    try:
+      self.pool.AsyncProcessRequest(st, msg, None, {})
+    except BaseException:
+      self.status[cid] = 'done'
+      raise
+    if self.status[cid] == 'pending':
+      self.status[cid] = 'queued'
+
+  def reaction(self, act, kind):
+    """The caller's callback calls back into the pool before it returns."""
+    if act.startswith('spawn_'):
+      # the caller reacts from a fresh greenlet: it runs in the same instant, after the pool operation has returned
+      g = _S['gevent'].spawn(self.guard, self.reaction, act[6:], None)
+      self.greenlets.append(g)
+      return
+    if kind == 2:
+      # inside Close()'s loop over the waiters
+      if (act == 'req' and not PENDING['reenter_req_in_close']) or \
+         (act.startswith('raise') and not PENDING['raising_callback_in_close']):
+        self.suppressed += 1      # out of the property's scope (P2, P3 in ASSUMPTIONS): this caller does not react
+        return
+      # the pool is in the middle of an operation, so this is not a sequence of labels; such cases are checked
+      # by the monitor only
+      self.nomodel = '%s from inside a ServiceClosedError callback' % act
+    if act == 'req':
+      self.cut(['Req'])
+      self.request()
+    elif act == 'close':
+      self.cut(['ClosePool'])
+      self.pool.Close()
+    elif act == 'open':
+      self.pool_open()
+    elif act in ('raise', 'raise_timeout'):
+      # the caller's callback raises (an Exception, or gevent.Timeout which is a BaseException); outside Close()'s
+      # loop the pool has nothing left to do, the exception travels up to whoever delivered the answer
+      self.expected = ValueError('caller callback') if act == 'raise' else _S['gevent'].Timeout()
+      raise self.expected
+
+  # -- operations; each sets the concrete label before it acts
   def op(self, o):
     k = o['op']
     S = _S
     if k == 'req':
-      cid = self.ncall
-      self.ncall += 1
-      st = S['Stack']()
-      st.Push(self.term, cid)
-      msg = S['CallMsg'](None, 'm', (), {})
-      msg.cid = cid
-      self.stacks[cid] = st
-      g = S['gevent'].spawn(self.guard, self.pool.AsyncProcessRequest, st, msg, None, {})
-      self.greenlets.append(g)
-      self.settle()
-      self.status[cid] = 'queued' if g.dead else 'opening'
-      if any(e[0] == 'crash' for e in self.events):
-        self.status[cid] = 'done'
-      return ['Req']
+      self.cur_label = ['Req']
+      self.run(self.request, o.get('then'))
+      return
     if k == 'opendone':
       if 'i' in o:
         s = self.open_pending[o['i'] % len(self.open_pending)] if self.open_pending else -1
       else:
         s = o['s']
+      self.cur_label = ['OpenDone', s]
       if s in self.open_pending:
         self.open_pending.remove(s)
         ar = self.sinks[s].open_ar
@@ -289,145 +438,257 @@ class _H(object):
         else:
           ar.set_exception(Exception('open failed'))
         self.settle()
-      return ['OpenDone', s]
+      return
     if k == 'resp':
       lent = sorted(c for c, v in self.status.items() if v == 'lent')
       if 'i' in o:
         c = lent[o['i'] % len(lent)] if lent else -1
       else:
         c = o['c']
+      self.cur_label = ['Resp', c]
       if c in lent:
         self.status[c] = 'done'
-        self.guard(self.stacks[c].AsyncProcessResponseMessage, S['Ret'](return_value=1))
-        self.settle()
-      return ['Resp', c]
+        self.run(self.stacks[c].AsyncProcessResponseMessage, S['Ret'](return_value=1))
+      return
     if k == 'expire':
       q = sorted(c for c, v in self.status.items() if v == 'queued')
       if 'i' in o:
         c = q[o['i'] % len(q)] if q else -1
       else:
         c = o['c']
+      self.cur_label = ['Expire', c]
       if c in q:
         self.status[c] = 'done'
         # ClientTimeoutSink._TimeoutHelper: sink_stack.AsyncProcessResponseMessage(MethodReturnMessage(error=TimeoutError()))
-        self.guard(self.stacks[c].AsyncProcessResponseMessage, S['Ret'](error=S['Timeout']()))
-        self.settle()
-      return ['Expire', c]
+        self.run(self.stacks[c].AsyncProcessResponseMessage, S['Ret'](error=S['Timeout']()))
+      return
     if k == 'pq':
       if 'i' in o:
         idx = o['i'] % len(self.pending) if self.pending else 0
       else:
         idx = o['k']
+      self.cur_label = ['PQ', idx]
       if 0 <= idx < len(self.pending):
         fn, a, kw, _sid = self.pending.pop(idx)
-        g = S['gevent'].spawn(self.guard, fn, *a, **kw)
-        self.greenlets.append(g)
-        self.settle()
-      return ['PQ', idx]
+        self.run(fn, *a, **kw)
+      return
     if k == 'state':
       if 'i' in o:
         s = o['i'] % len(self.sinks) if self.sinks else -1
       else:
         s = o['s']
+      self.cur_label = ['SinkState', s, o['v']]
       if 0 <= s < len(self.sinks):
         self.sinks[s]._st = o['v']
       else:
         self.prestate[s] = o['v']
-      return ['SinkState', s, o['v']]
+      return
+    if k == 'sabotage':          # environment only, no label: connection s raises from Close() (P4, out of scope)
+      (self.open_raises if o.get('what') == 'open' else self.close_raises).add(o['s'])
+      return
     if k == 'close':
-      self.guard(self.pool.Close)
-      self.settle()
-      return ['ClosePool']
+      self.cur_label = ['ClosePool']
+      self.run(self.pool.Close)
+      return
     if k == 'open':
-      ar = None
+      self.cur_label = ['OpenPool']
+      self.open_direct = self.wrapped
       try:
-        ar = self.pool.Open()
+        if self.wrapped:
+          self.pool_open()
+        else:
+          ar = self.pool.Open()
+          ar.rawlink(lambda a: self.events.append(['openres', bool(a.successful())]))
       except BaseException as e:
         self.events.append(['crash', type(e).__name__])
-      if ar is not None:
-        ar.rawlink(lambda a: self.events.append(['openres', bool(a.successful())]))
       self.settle()
-      return ['OpenPool']
+      self.open_direct = False
+      return
     raise ValueError(k)
 
-  def seen(self):
-    gs, gq = self.gauges()
-    try:
-      ps = self.pool.state
-    except Exception as e:
-      ps = -1
-    return {'ev': self.events, 'ps': ps, 'gs': gs, 'gq': gq}
+  def do(self, o, labels, seen):
+    _CUR[0] = self
+    self.events = []
+    self.segs = []
+    self.seg_start = 0
+    self.cur_label = None
+    self.imm = bool(o.get('imm')) and o['op'] in ('req', 'open')
+    self.inline_next = o.get('inline') if o['op'] in ('req', 'opendone', 'pq') else None
+    self.op(o)
+    self.settle()
+    self.imm = False
+    self.inline_next = None
+    self.cut(None)
+    self.absorb()
+    for lab, sn in self.segs:
+      labels.append(lab)
+      seen.append(sn)
+
+  def drain(self, labels, seen):
+    """Epilogue: traffic stops; run every hand-off, complete every Open(), release every lent call."""
+    for _round in range(400):
+      if self.pending:
+        self.do({'op': 'pq', 'k': 0}, labels, seen)
+      elif self.open_pending:
+        self.do({'op': 'opendone', 's': self.open_pending[0]}, labels, seen)
+      else:
+        lent = sorted(c for c, v in self.status.items() if v == 'lent')
+        if not lent:
+          return True
+        self.do({'op': 'resp', 'c': lent[0]}, labels, seen)
+    return False
+
+  def finish(self):
+    self.finished = True
+    _BY_POOL.pop(id(self.pool), None)
+    for g in self.greenlets:
+      if not g.dead:
+        g.kill(block=False)
+    self.settle()
 
 
 def run_impl(case):
   setup()
   cfg = case['config']
-  h = _H(cfg)
-  _CUR[0] = h
-  labels = []
-  seen = []
+  # two pool instances in one process, driven by the same operations in lock-step (A first, then B): class-level or
+  # module-level state shared between instances shows up as A deviating from the model and from the specification,
+  # and as B not behaving like A
+  worlds = [_H(cfg, 'A')]
+  if case.get('twin', True):
+    worlds.append(_H(cfg, 'B'))
+  out = [([], []) for _ in worlds]
   try:
-    def do(o):
-      h.events = []
-      h.split = None
-      h.imm = bool(o.get('imm')) and o['op'] in ('req', 'open')
-      lab = h.op(o)
-      h.settle()
-      h.imm = False
-      h.absorb()
-      labels.append(lab)
-      if h.split is not None:
-        sid, first, n = h.split
-        seen.append(first)
-        labels.append(['OpenDone', sid])
-        rest = h.seen()
-        rest['ev'] = rest['ev'][n:]
-        seen.append(rest)
-      else:
-        seen.append(h.seen())
     for o in case['ops']:
-      do(o)
-    nops = len(labels)
-    drained = False
+      for h, (labels, seen) in zip(worlds, out):
+        h.do(o, labels, seen)
+    nops = len(out[0][0])
+    drained = True
     if case.get('drain', True):
-      # epilogue: traffic stops; run every hand-off, complete every Open(), release every lent call
-      for _round in range(400):
-        if h.pending:
-          do({'op': 'pq', 'k': 0})
-        elif h.open_pending:
-          do({'op': 'opendone', 's': h.open_pending[0]})
-        else:
-          lent = sorted(c for c, v in h.status.items() if v == 'lent')
-          if not lent:
-            drained = True
-            break
-          do({'op': 'resp', 'c': lent[0]})
+      for h, (labels, seen) in zip(worlds, out):
+        drained = h.drain(labels, seen) and drained
+    else:
+      drained = False
+    h = worlds[0]
     diag = {}
     try:
       p = h.pool
       diag = {'size': p._current_size, 'cache': [s.sid for s in p._cache], 'waiters': len(p._waiters)}
     except Exception:
       pass
-    return {'labels': labels, 'seen': seen, 'nops': nops, 'drained': drained, 'diag': diag}
+    res = {'labels': out[0][0], 'seen': out[0][1], 'nops': nops, 'drained': drained, 'diag': diag}
+    if h.wrapped and drained and sorted(h.open_results) != sorted(h.ar_results):
+      res['open_mismatch'] = {'_OpenImpl': h.open_results, 'Open().successful()': h.ar_results}
+    if h.nomodel:
+      res['nomodel'] = h.nomodel
+    if h.suppressed:
+      res['suppressed_reactions'] = h.suppressed
+    if len(worlds) > 1:
+      la, sa = out[0]
+      lb, sb = out[1]
+      if la == lb and sa == sb:
+        res['twin'] = 'same'
+      else:
+        k = 0
+        while k < min(len(la), len(lb)) and la[k] == lb[k] and sa[k] == sb[k]:
+          k += 1
+        res['twin'] = {'first_difference_at': k, 'a': [la[k:k + 1], sa[k:k + 1]], 'b': [lb[k:k + 1], sb[k:k + 1]]}
+    return res
   finally:
-    h.finished = True
-    for g in h.greenlets:
-      if not g.dead:
-        g.kill(block=False)
-    h.settle()
+    for h in worlds:
+      h.finish()
     _CUR[0] = None
 
 
 # ---------------------------------------------------------------------------------------------
 # monitor: reference specification of the pool, evaluated on labels + events only
 # ---------------------------------------------------------------------------------------------
-def monitor(case, obs):
-  mn, mx, mq = case['config']
+def _monitor_reentrant(case, obs):
+  """Cases in which a caller calls back into the pool from inside Close()'s loop over the waiters: the nested labels
+  are not a sequence of pool operations, so only what the property says whatever the interleaving is checked:
+  nothing escapes, nobody is answered or started twice, nobody is started after having been answered, no connection
+  is lent twice, and every call that was waiting when the pool closed is failed with ServiceClosedError (once)."""
   V = []
 
   def flag(sig, msg):
     if not any(s == sig for s, _ in V):
       V.append((sig, msg))
+
+  term = {}
+  fwd = {}
+  waiting = []
+  must_fail = set()
+  failed = {}
+  busy = {}
+  ncall = 0
+  ps_before = 1
+  for i, (lab, sn) in enumerate(zip(obs['labels'], obs['seen'])):
+    at = 'op %d %s' % (i, lab)
+    cur = None
+    if lab[0] == 'Req':
+      cur = ncall
+      ncall += 1
+    if lab[0] == 'Resp':
+      for s_, c_ in list(busy.items()):
+        if c_ == lab[1]:
+          del busy[s_]
+    if (ps_before != 4 and sn['ps'] == 4) or lab[0] == 'ClosePool':
+      must_fail.update(waiting)
+    for e in sn['ev']:
+      if e[0] == 'crash':
+        flag('greenlet-crash', '%s: exception %s escaped (caller never told / connection lost)' % (at, e[1]))
+      elif e[0] == 'fwd':
+        c, s_ = e[1], e[2]
+        fwd[c] = fwd.get(c, 0) + 1
+        if fwd[c] > 1:
+          flag('call-forwarded-twice', '%s: call %d forwarded again' % (at, c))
+        if term.get(c):
+          flag('forward-after-completion', '%s: call %d was forwarded after its caller had been answered' % (at, c))
+        if s_ in busy:
+          flag('double-lend', '%s: connection %d lent to call %d while call %d is still on it' % (at, s_, c, busy[s_]))
+        busy[s_] = c
+        if c in waiting:
+          waiting.remove(c)
+      elif e[0] in ('err', 'done'):
+        c = e[1]
+        term[c] = term.get(c, 0) + 1
+        if term[c] > 1:
+          flag('completed-twice', '%s: caller of %d answered %d times' % (at, c, term[c]))
+        if e[0] == 'err' and e[2] == 2:
+          failed[c] = failed.get(c, 0) + 1
+        if c in waiting:
+          waiting.remove(c)
+    if cur is not None:
+      evs = sn['ev']
+      if not any((x[0] in ('fwd', 'err') and x[1] == cur) or x[0] in ('create', 'crash') for x in evs):
+        waiting.append(cur)
+    ps_before = sn['ps']
+  missing = sorted(c for c in must_fail if failed.get(c, 0) != 1 and not fwd.get(c) and term.get(c, 0) == 0)
+  if missing:
+    flag('waiter-not-failed-on-close', 'pool closed but waiting call(s) %s never got a ServiceClosedError' % missing)
+  return V
+
+
+DEFAULTS = [1, BIG, BIG]      # WatermarkPoolSink.Builder defaults: min_watermark, max_watermark, max_queue_len
+
+
+def _config(case):
+  return [d if v is None else v for v, d in zip(case['config'], DEFAULTS)]
+
+
+def monitor(case, obs):
+  mn, mx, mq = _config(case)
+  V = []
+
+  def flag(sig, msg):
+    if not any(s == sig for s, _ in V):
+      V.append((sig, msg))
+
+  if obs.get('open_mismatch'):
+    flag('open-result-mismatch', 'what pool.Open() reported differs from how _OpenImpl ended: %s' % (obs['open_mismatch'],))
+  if obs.get('twin', 'same') != 'same':
+    flag('instances-interfere', 'two pools of one process given the same operations behaved differently: %s' % (obs['twin'],))
+  if obs.get('nomodel'):
+    return V + _monitor_reentrant(case, obs)
 
   created = []            # sids in creation order
   closed_ever = set()     # Close() called by the pool
@@ -636,11 +897,50 @@ def monitor(case, obs):
 # ---------------------------------------------------------------------------------------------
 # generators
 # ---------------------------------------------------------------------------------------------
+# Behaviours of the unchanged code that need an environment outside the property's quantifier (reported to the lead;
+# see ASSUMPTIONS).  Turning a switch on makes the generators produce them and the monitor judge them.
+PENDING = {
+    'reenter_req_in_close': False,   # a caller re-dispatches from inside a ServiceClosedError callback (Close() loop)
+    'raising_callback_in_close': False,  # a caller's callback raises inside Close()'s loop over the waiters
+    'raising_collaborator': False,   # connection.Close() raises
+}
+import os as _os
+for _k in _os.environ.get('C07_PENDING', '').split(','):
+  if _k.strip() in PENDING:       # eg C07_PENDING=reenter_req_in_close,raising_callback_in_close ./check C07
+    PENDING[_k.strip()] = True
+PENDING_CASES = [
+    {'kind': 'pending', 'config': [0, 1, 5], 'note': 'P2: deque mutated during iteration out of Close()',
+     'ops': [{'op': 'req'}, {'op': 'opendone', 'i': 0}, {'op': 'req', 'then': 'req'}, {'op': 'req'}, {'op': 'close'}]},
+    {'kind': 'pending', 'config': [0, 1, 5], 'note': 'P3: a raising callback aborts Close(), the next waiter is never failed',
+     'ops': [{'op': 'req'}, {'op': 'opendone', 'i': 0}, {'op': 'req', 'then': 'raise'}, {'op': 'req'}, {'op': 'close'}]},
+    {'kind': 'pending', 'config': [0, 1, 5], 'note': 'P4: connection.Close() raises in _Release, the releasing caller is never told',
+     'ops': [{'op': 'req'}, {'op': 'opendone', 'i': 0}, {'op': 'sabotage', 's': 0}, {'op': 'resp', 'c': 0}]},
+    {'kind': 'pending', 'config': [0, 1, 5], 'note': 'P5: Open() raising synchronously leaks the slot: the next request waits for ever',
+     'ops': [{'op': 'sabotage', 's': 0, 'what': 'open'}, {'op': 'req'}, {'op': 'req'}]},
+]
+
+
 def _cfg(r):
-  mn = r.choice([0, 0, 1, 1, 2, 3])
-  mx = r.choice([1, 1, 2, 2, 3, 4, 0])
-  mq = r.choice([0, 1, 2, 3, BIG, BIG])
+  mn = r.choice([0, 0, 1, 1, 2, 3, None, -1, BIG])
+  mx = r.choice([1, 1, 2, 2, 3, 4, 0, 1, 2, 3, None, BIG])
+  mq = r.choice([0, 1, 2, 3, BIG, BIG, 0, 1, None, -1])
   return [mn, mx, mq]
+
+
+def _then(r, fam):
+  """What the caller of a request does from inside the callback that answers it."""
+  acts = ['req', 'open', 'raise', 'raise_timeout', 'spawn_req', 'spawn_req', 'spawn_open']
+  if fam != 'healthy':
+    # the pool may close with this call waiting: its callback then runs inside Close()'s loop, so only a reaction
+    # from a fresh greenlet (after Close() returned) is a pool operation of its own
+    acts = ['spawn_req', 'spawn_req', 'spawn_open', 'open']
+    if fam == 'closing':
+      acts += ['close', 'spawn_close']
+    if PENDING['reenter_req_in_close']:
+      acts.append('req')
+    if PENDING['raising_callback_in_close']:
+      acts += ['raise', 'raise_timeout']
+  return r.choice(acts)
 
 
 def _rand_ops(r, fam, n):
@@ -655,11 +955,24 @@ def _rand_ops(r, fam, n):
   for _ in range(n):
     k = r.choices(keys, ws)[0]
     if k == 'req':
-      ops.append({'op': 'req', 'imm': True} if r.random() < 0.12 else {'op': 'req'})
+      o = {'op': 'req'}
+      if r.random() < 0.12:
+        o['imm'] = True
+      if r.random() < 0.10:
+        o['inline'] = r.choice(['ok', 'fail'])
+      if r.random() < 0.10:
+        o['then'] = _then(r, fam)
+      ops.append(o)
     elif k == 'opendone':
-      ops.append({'op': 'opendone', 'i': r.randrange(4), 'ok': r.random() < 0.8})
+      o = {'op': 'opendone', 'i': r.randrange(4), 'ok': r.random() < 0.8}
+      if r.random() < 0.12:
+        o['inline'] = r.choice(['ok', 'fail'])
+      ops.append(o)
     elif k in ('resp', 'expire', 'pq'):
-      ops.append({'op': k, 'i': 0 if r.random() < 0.6 else r.randrange(5)})
+      o = {'op': k, 'i': 0 if r.random() < 0.6 else r.randrange(5)}
+      if k == 'pq' and r.random() < 0.15:
+        o['inline'] = r.choice(['ok', 'fail'])
+      ops.append(o)
     elif k == 'state':
       ops.append({'op': 'state', 'i': r.randrange(6), 'v': r.choice([4, 4, 4, 3, 2, 1])})
     elif k == 'close':
@@ -669,7 +982,7 @@ def _rand_ops(r, fam, n):
     else:
       ops.append(r.choice([{'op': 'resp', 'c': r.randrange(-1, 12)}, {'op': 'expire', 'c': r.randrange(-1, 12)},
                            {'op': 'opendone', 's': r.randrange(-1, 8)}, {'op': 'pq', 'k': r.randrange(0, 4)},
-                           {'op': 'state', 's': r.randrange(0, 8), 'v': r.choice([1, 2, 3, 4])}]))
+                           {'op': 'state', 's': r.randrange(0, 8), 'v': r.choice([1, 2, 3] if fam == 'healthy' else [1, 2, 3, 4])}]))
   return ops
 
 
@@ -691,7 +1004,8 @@ def _burst(r):
   for _ in range(mx + mq + 2):
     tail.append({'op': 'resp', 'i': r.randrange(3)})
     if r.random() < 0.7:
-      tail.append({'op': 'pq', 'i': r.randrange(2)})
+      tail.append({'op': 'pq', 'i': r.randrange(2), 'inline': r.choice(['ok', 'fail'])} if r.random() < 0.2 else
+                  {'op': 'pq', 'i': r.randrange(2)})
     if r.random() < 0.15:
       tail.append({'op': 'req'})
     if r.random() < 0.1:
@@ -729,7 +1043,11 @@ def gen_cases(tier, seed):
       continue
     fam = 'healthy' if k < 0.45 else ('faults' if k < 0.75 else 'closing')
     ln = r.choice([3, 6, 10, 16, 24, 32, 45])
+    if i % 97 == 5:
+      ln = r.choice([150, 250])          # one long-lived pool re-used across many operations
     out.append({'kind': fam, 'config': _cfg(r), 'ops': _rand_ops(r, fam, ln)})
+  if any(PENDING.values()):
+    out += [dict(c) for c in PENDING_CASES]
   return out
 
 
@@ -785,7 +1103,9 @@ def _ev(e):
 
 
 def to_coq(case, obs):
-  mn, mx, mq = case['config']
+  if obs.get('nomodel'):
+    return None
+  mn, mx, mq = _config(case)
   labs = C.lst([_label(l) for l in obs['labels']])
   seen = C.lst(['Sn %s %s %s %s' % (C.lst([_ev(e) for e in s['ev']]), _z(s['ps']), _z(s['gs']), _z(s['gq']))
                 for s in obs['seen']])
@@ -841,6 +1161,28 @@ def stats(cases, obs):
       closed += 1
     if o.get('drained'):
       drained += 1
+  dims = {'inline_answers': 0, 'reactions_inline': 0, 'reactions_fresh_greenlet': 0, 'raising_callbacks': 0,
+          'default_or_extreme_config': 0, 'long_histories': 0, 'twin_pools_identical': 0, 'monitor_only_reentrant': 0,
+          'immediate_opens': 0, 'out_of_scope_reactions_suppressed': 0}
+  for c, o in zip(cases, obs):
+    if not isinstance(o, dict) or 'seen' not in o:
+      continue
+    ops = c.get('ops', [])
+    dims['inline_answers'] += sum(1 for x in ops if x.get('inline'))
+    dims['immediate_opens'] += sum(1 for x in ops if x.get('imm'))
+    th = [x.get('then') for x in ops if x.get('then')]
+    dims['reactions_fresh_greenlet'] += sum(1 for t in th if t.startswith('spawn_'))
+    dims['raising_callbacks'] += sum(1 for t in th if t.startswith('raise'))
+    dims['reactions_inline'] += sum(1 for t in th if not t.startswith('spawn_') and not t.startswith('raise'))
+    if any(v is None or v < 0 or v == BIG for v in c['config'][:2]) or c['config'][2] is None or c['config'][2] < 0:
+      dims['default_or_extreme_config'] += 1
+    if len(ops) >= 100:
+      dims['long_histories'] += 1
+    if o.get('twin') == 'same':
+      dims['twin_pools_identical'] += 1
+    if o.get('nomodel'):
+      dims['monitor_only_reentrant'] += 1
+    dims['out_of_scope_reactions_suppressed'] += o.get('suppressed_reactions', 0)
   top = dict(sorted(br.items(), key=lambda kv: -kv[1])[:80])
-  return {'labels_executed': nlabels, 'distinct_operation_signatures': len(br), 'operation_signature_counts': top,
+  return {'audit_dimensions': dims, 'labels_executed': nlabels, 'distinct_operation_signatures': len(br), 'operation_signature_counts': top,
           'cases_ending_closed': closed, 'cases_drained_to_quiescence': drained}
